@@ -94,6 +94,20 @@ def _own_stores(fn):
         if isinstance(n, ast.Assign) and len(n.targets) == 1 and isinstance(n.targets[0], ast.Name):
             defs.setdefault(n.targets[0].id, []).append(n.value)
     out = []
+    # local views of the six-vector: `v = self.TAA[a:b]` / `self.TAA[a:b, 0]` - a store through v reaches (at most) rows a..b-1
+    views = {}
+    for nm, vs in defs.items():
+        rows_ = []
+        for v in vs:
+            if isinstance(v, ast.Subscript) and isinstance(v.value, ast.Attribute) and v.value.attr == 'TAA' and isinstance(v.value.value, ast.Name) \
+                    and v.value.value.id == 'self':
+                first = v.slice.elts[0] if isinstance(v.slice, ast.Tuple) and v.slice.elts else v.slice
+                rows_.append(_rows_of_index(first, {}, defs) if isinstance(first, ast.Slice) else None)
+            else:
+                rows_ = None
+                break
+        if rows_:
+            views[nm] = None if any(r is None for r in rows_) else frozenset().union(*rows_)
 
     def visit(stmts, loops):
         for s_ in stmts:
@@ -111,6 +125,8 @@ def _own_stores(fn):
                     if isinstance(t, ast.Subscript) and isinstance(t.value, ast.Attribute) and t.value.attr == 'TAA' \
                             and isinstance(t.value.value, ast.Name) and t.value.value.id == 'self':
                         out.append((s_.lineno, norm_text(t), _rows_of_index(t.slice, loops, defs)))
+                    elif isinstance(t, ast.Subscript) and isinstance(t.value, ast.Name) and t.value.id in views:
+                        out.append((s_.lineno, '%s (a view of self.TAA)' % norm_text(t), views[t.value.id]))
             for fld in ('body', 'orelse', 'finalbody'):
                 sub = getattr(s_, fld, None)
                 if isinstance(sub, list) and sub and isinstance(sub[0], ast.stmt):
